@@ -73,6 +73,8 @@ pub struct Runner {
     /// (twin only) AddVersion for an unknown client creates it first, as the HTTP entry point does
     pub emulate_create: bool,
     pub stranger: Uuid,
+    /// a second server instance on the same data (requests alternate between the two)
+    pub driver2: Option<Box<dyn Driver>>,
 }
 
 pub fn out_to_resp(out: &Out, namer: &mut Namer, pay: &Payloads) -> RespRec {
@@ -150,6 +152,7 @@ impl Runner {
             twin: None,
             emulate_create: false,
             stranger: Uuid::new_v4(),
+            driver2: None,
         };
         r.open()?;
         if job["twin"].as_bool() == Some(true) {
@@ -190,12 +193,18 @@ impl Runner {
         } else {
             self.driver = Some(make_driver(&self.driver_kind, self.days, self.versions, self.allow.clone(), Shared(cnt.clone())));
         }
+        if self.job["instances"].as_u64() == Some(2) && self.driver_kind != "sock" {
+            // a second server object; for SQLite also a second storage object on the same directory
+            let st2 = if self.backend == "sqlite" { open_backend(&self.backend, &self.dir)? } else { st.clone() };
+            self.driver2 = Some(make_driver(&self.driver_kind, self.days, self.versions, self.allow.clone(), Shared(st2)));
+        }
         self.counting = Some(cnt);
         self.storage = Some(st);
         Ok(())
     }
 
     pub fn close(&mut self) {
+        self.driver2 = None;
         self.driver = None;
         self.counting = None;
         self.storage = None;
@@ -294,6 +303,19 @@ impl Runner {
 
     /// Execute one step; returns the event and whether the run must stop (divergence from plan).
     pub fn step(&mut self, s: &Value, idx: usize) -> (Value, bool) {
+        // with two server instances, odd steps go through the second one
+        let swap = self.driver2.is_some() && idx % 2 == 1;
+        if swap {
+            std::mem::swap(&mut self.driver, &mut self.driver2);
+        }
+        let r = self.step_inner(s, idx);
+        if swap {
+            std::mem::swap(&mut self.driver, &mut self.driver2);
+        }
+        r
+    }
+
+    fn step_inner(&mut self, s: &Value, idx: usize) -> (Value, bool) {
         let mut op = s["op"].as_str().unwrap_or("").to_string();
         if op == "NewClientIfAbsent" {
             let ci0 = (s["c"].as_i64().unwrap_or(1) - 1).max(0) as usize;
@@ -477,6 +499,7 @@ impl Runner {
                         headers: vec![("X-Client-Id".into(), c.to_string().into_bytes()), ("Content-Type".into(), ct.as_bytes().to_vec())],
                         body: body.clone(),
                         chunks: chunklist,
+                        abort_after: None,
                     };
                     match d.raw(&rr) {
                         Some(Ok((info, b))) => (decode(&op, &info, b), Some(info)),
@@ -785,7 +808,10 @@ impl Runner {
             v[0] = (base / 3).max(1); // uneven first chunk
             v
         };
-        (RawReq { method: g["method"].as_str().unwrap_or("GET").to_string(), uri, headers, body, chunks }, cnum, argn)
+        // an aborted upload: the body is streamed in 3 pieces and breaks after the first one
+        let abort = g["abort"].as_bool().unwrap_or(false) && size >= 3;
+        let chunks = if abort { vec![(size / 3).max(1), (size / 3).max(1)] } else { chunks };
+        (RawReq { method: g["method"].as_str().unwrap_or("GET").to_string(), uri, headers, body, chunks, abort_after: if abort { Some(1) } else { None } }, cnum, argn)
     }
 }
 
